@@ -1,4 +1,4 @@
-import Tahoe.Uri.LemmasRoSlot
+import Tahoe.Uri.LemmasDir
 /-! C16 — capabilities attenuate correctly (`uri.py` get_readonly / get_verify_cap / is_readonly /
 is_mutable, `from_string` alleged prefixes, `unknown.py`, `nodemaker.py` create_from_cap).
 
@@ -17,6 +17,7 @@ so a derived cap can depend on a stronger secret only through the hash the code 
 | — by `UnknownNode` (both slots; seed C16-c) | `unknown_prefix_kept` (errored nodes opaque; stored ro_uri always prefixed, `imm.` never weakened; rw_uri kept only when given as such with a read cap outside deep-immutable). |
 | — along the route set_uri → `_pack_normalized_children` (cleartext ro slot) → `_unpack_contents` → create_from_cap(None, stored) (seed C16-c) | `ro_slot_never_writes`: the reader's node has at most read authority for every (writecap, readcap, context) and every hash functions, EXCEPT `roSlotException`; `ro_slot_exception_is_real` / `ro_slot_unprefixed_writecap_counterexample` prove the exception is inhabited (open known finding `ro-slot-unprefixed-writecap-in-unknownnode`). What is modelled of pack/unpack is the ro-slot string only; netstring framing, rw-slot encryption, metadata and the `rstrip(b" ")` on read are **not covered** here (C19/C18); the in-process grid run of the harness is **monitor only**. |
 | quantifier "all prefix combinations ro./imm. with deep-immutable and read-only contexts" | theorems are for all byte strings (so all prefix stackings) and both values of `deep`; "read-only context" = the ro slot / readcap argument, covered by the ro-slot route above. |
+| deep immutability is transitive through immutable directories of BOTH flavours, DIR2-CHK and DIR2-LIT (seed C16-d) | `immutable_dir_children`: every child entry read out of such a directory is refused, or is read-only & immutable with at most read authority, an unknown child is `imm.`-alleged without rw_uri, a directory child is again of an immutable flavour, non-empty rwcapdata is a ValueError. The child context is `dirChildDeep`, a function of the directory cap's kind. Netstring framing / metadata of the listing: not covered (C19). |
 | verify-cap of a directory *verifier* cap | outside the statement; `dir_verifier_reverify_is_miskinded` records what the code does. |
 -/
 namespace Tahoe.C16
@@ -212,6 +213,30 @@ theorem ro_slot_exception_is_real :
     packRo H (some [120, 58, 121]) (some w) false = .stored w ∧ (readerNode w false).authority = .write ∧
     roSlotException (some [120, 58, 121]) (some w) false := by
   refine ⟨by decide, by decide, rfl, ⟨_, rfl⟩, _, rfl, by decide, by decide, by decide⟩
+
+/-! ### deep immutability is transitive through both immutable directory flavours -/
+
+/-- `unpackChild dk ro rwcap` is what `DirectoryNode._unpack_contents` makes of one entry (cleartext ro slot,
+rwcapdata empty or not) of a directory whose cap has kind `dk`, for a reader without the write key.  For
+`dk` = DIR2-CHK **or** DIR2-LIT, and for every byte string in the slot: -/
+theorem immutable_dir_children (dk : FileKind) (hdk : dk = .chk ∨ dk = .lit) (roSlot : Bytes) (rwcap : Bool) :
+    (rwcap = true → unpackChild dk roSlot rwcap = .valueError) ∧
+    ∀ n, unpackChild dk roSlot rwcap = .child n →
+      (∀ k cap, n = .known k cap →
+          n.flags = some (true, false) ∧ n.authority ≤ .read ∧
+          (∀ k', k = .dirnode k' → ∃ dk' f, cap = .dir dk' f ∧ dirChildDeep dk' = true)) ∧
+      (∀ un, n = .unknown un → un.error = none ∧ un.rw = none ∧ ∀ x, un.ro = some x → startsWith immPrefix x = true) :=
+  immutable_dir_child dk hdk roSlot rwcap
+
+/-- instances: a write cap inside a literal directory is dropped, a literal file is kept, an unknown cap is re-alleged `imm.`;
+in a mutable directory read through its read cap the same write cap in the ro slot is NOT refused (the open finding's last step) -/
+example :
+    let w := filePrefix .ssk ++ List.replicate 26 97 ++ [58] ++ List.replicate 52 97
+    unpackChild .lit w false = .dropped ∧
+    unpackChild .lit (filePrefix .lit ++ [109, 121]) false = .child (.known .literal (.file (.lit [0x66]))) ∧
+    unpackChild .chk [120, 58, 121] false = .child (.unknown { error := none, rw := none, ro := some (immPrefix ++ [120, 58, 121]) }) ∧
+    unpackChild .sskRo w false = .child (.known .mutableFile (.file (.ssk (List.replicate 16 0) (List.replicate 32 0)))) := by
+  decide
 
 /-! ### alleged prefixes -/
 
